@@ -44,13 +44,16 @@ package sev
 //@   assigns nothing
 //@   sweep[C08,C18]
 //@   ensures[C18] err == nil <==> len(data) == hi - lo && forall(i, 0 <= i && i < len(data) ==> bytesAt(data, i) == 0)
+// allZero(val(data)) is the abstraction callers use for "all bytes are zero": this clause is its definition on this
+// value (assumed, not proved: it introduces the name), the clause above is what is proved of the code.
+//@   ensures[assume] allZero(val(data)) <==> forall(i, 0 <= i && i < len(data) ==> bytesAt(data, i) == 0)
 //@   loop 1 invariant forall(i, 0 <= i && i <= rangeindex ==> bytesAt(data, i) == 0)
 
 //@ func doReserved
 //@   requires 0 <= lo && lo <= hi && ref(protobytes) != ref(out)
 //@   assigns out[lo:hi][*]
 //@   sweep[C08,C18]
-//@   ensures[C18] err == nil <==> len(out) >= hi && (len(protobytes) == 0 || (len(protobytes) == hi - lo && forall(i, 0 <= i && i < len(protobytes) ==> bytesAt(protobytes, i) == 0)))
+//@   ensures[C18] err == nil <==> len(out) >= hi && (len(protobytes) == 0 || (len(protobytes) == hi - lo && allZero(val(protobytes))))
 //@   ensures[C18] err == nil ==> forall(i, lo <= i && i < hi ==> bytesAt(out, i) == 0)
 //@   ensures[C18] err != nil ==> unchanged(content(out))
 //@   loop 1 invariant lo <= i && i <= hi && unchanged(content(protobytes)) && forall(k, lo <= k && k < i ==> bytesAt(out, k) == 0)
@@ -66,18 +69,26 @@ package sev
 
 // VMSA (AMD64 APM vol. 2, Table B-4, SEV-ES save area; 0x670 bytes are produced): ten 16-byte segment registers from 0,
 // CPL u8 at 0xCB, PKRU u32 at 0x2E8, the u64 registers at their table offsets, must-be-zero ranges written as zero and
-// refused unless absent or exactly their documented size of zero bytes; reserved_8 (0x300) and reserved_9 (0x320) are
+// refused unless absent or exactly their documented size of zero bytes; nothing outside data[0:0x670] is written (frame); reserved_8 (0x300) and reserved_9 (0x320) are
 // u64 that must be zero; everything from 0x3F0 to 0x670 is zero at launch. Segments that are absent are created as zero.
 // (getOrCreateVmcbSeg takes the address of a pointer field; it is inlined at its ten call sites.)
 //@ func PutVmsa
 //@   requires v != nil
 //@   requires ref(v.Reserved_1) != ref(data) && ref(v.Reserved_2) != ref(data) && ref(v.Reserved_3) != ref(data) && ref(v.Reserved_4) != ref(data) && ref(v.Reserved_5) != ref(data) && ref(v.Reserved_6) != ref(data) && ref(v.Reserved_7) != ref(data) && ref(v.Reserved_7A) != ref(data) && ref(v.Reserved_10) != ref(data) && ref(v.Reserved_11) != ref(data)
-//@   assigns data[*], v.Es, v.Cs, v.Ss, v.Ds, v.Fs, v.Gs, v.Gdtr, v.Ldtr, v.Idtr, v.Tr
+//@   assigns data[0:1648][*], v.Es, v.Cs, v.Ss, v.Ds, v.Fs, v.Gs, v.Gdtr, v.Ldtr, v.Idtr, v.Tr
 //@   sweep[C08,C18]
 //@   ensures[C18] len(data) < 1648 ==> err != nil
-//@   ensures[C18] err == nil ==> len(data) >= 1648 && segFits(old(v.Es)) && segFits(old(v.Cs)) && segFits(old(v.Ss)) && segFits(old(v.Ds)) && segFits(old(v.Fs)) && segFits(old(v.Gs)) && segFits(old(v.Gdtr)) && segFits(old(v.Ldtr)) && segFits(old(v.Idtr)) && segFits(old(v.Tr)) && v.Cpl < 256
-//@   ensures[C18] err == nil ==> mbzOK(v.Reserved_1, 43) && mbzOK(v.Reserved_2, 4) && mbzOK(v.Reserved_3, 104) && mbzOK(v.Reserved_4, 88) && mbzOK(v.Reserved_5, 24)
-//@   ensures[C18] err == nil ==> mbzOK(v.Reserved_6, 32) && mbzOK(v.Reserved_7, 80) && mbzOK(v.Reserved_7A, 20) && mbzOK(v.Reserved_10, 16) && mbzOK(v.Reserved_11, 48)
+//@   ensures[C18,slow] err == nil ==> len(data) >= 1648 && segFits(old(v.Es)) && segFits(old(v.Cs)) && segFits(old(v.Ss)) && segFits(old(v.Ds)) && segFits(old(v.Fs)) && segFits(old(v.Gs)) && segFits(old(v.Gdtr)) && segFits(old(v.Ldtr)) && segFits(old(v.Idtr)) && segFits(old(v.Tr)) && v.Cpl < 256
+//@   ensures[C18] err == nil ==> old(mbzOK(v.Reserved_1, 43))
+//@   ensures[C18] err == nil ==> old(mbzOK(v.Reserved_2, 4))
+//@   ensures[C18] err == nil ==> old(mbzOK(v.Reserved_3, 104))
+//@   ensures[C18] err == nil ==> old(mbzOK(v.Reserved_4, 88))
+//@   ensures[C18] err == nil ==> old(mbzOK(v.Reserved_5, 24))
+//@   ensures[C18] err == nil ==> old(mbzOK(v.Reserved_6, 32))
+//@   ensures[C18] err == nil ==> old(mbzOK(v.Reserved_7, 80))
+//@   ensures[C18] err == nil ==> old(mbzOK(v.Reserved_7A, 20))
+//@   ensures[C18] err == nil ==> old(mbzOK(v.Reserved_10, 16))
+//@   ensures[C18] err == nil ==> old(mbzOK(v.Reserved_11, 48))
 //@   ensures[C18] err == nil ==> v.Reserved_8 == 0 && v.Reserved_9 == 0
 //@   ensures[C18] len(data) >= 1648 && segFits(old(v.Es)) && segFits(old(v.Cs)) && segFits(old(v.Ss)) && segFits(old(v.Ds)) && segFits(old(v.Fs)) && segFits(old(v.Gs)) && segFits(old(v.Gdtr)) && segFits(old(v.Ldtr)) && segFits(old(v.Idtr)) && segFits(old(v.Tr)) && v.Cpl < 256 && mbzOK(v.Reserved_1, 43) && mbzOK(v.Reserved_2, 4) && mbzOK(v.Reserved_3, 104) && mbzOK(v.Reserved_4, 88) && mbzOK(v.Reserved_5, 24) && mbzOK(v.Reserved_6, 32) && mbzOK(v.Reserved_7, 80) && mbzOK(v.Reserved_7A, 20) && mbzOK(v.Reserved_10, 16) && mbzOK(v.Reserved_11, 48) && v.Reserved_8 == 0 && v.Reserved_9 == 0 ==> err == nil
 //@   ensures[C18,C04] err == nil ==> segAt(data, 0, v.Es)
@@ -109,7 +120,6 @@ package sev
 //@   ensures[C18,C04] err == nil ==> forall(i, 896 <= i && i < 912 ==> bytesAt(data, i) == 0)
 //@   ensures[C18,C04] err == nil ==> forall(i, 952 <= i && i < 1000 ==> bytesAt(data, i) == 0)
 //@   ensures[C18,C04] err == nil ==> forall(i, 1008 <= i && i < 1648 ==> bytesAt(data, i) == 0)
-//@   ensures[C18] forall(i, 1648 <= i && i < len(data) ==> bytesAt(data, i) == old(bytesAt(data, i)))
 //@   loop 1 assigns data[1008:1648][*]
 //@   loop 1 invariant 1008 <= i && i <= 1648 && forall(k, 1008 <= k && k < i ==> bytesAt(data, k) == 0)
 //@   loop 1 decreases[C08] 1648 - i
@@ -249,6 +259,7 @@ package sev
 //@   loop 1 invariant forall(j, Int, old(ldN) <= j && j < ldN ==> ldType[j] == 2 && ldGpa[j] == ite(opts.Product == 1, 281474976706560, 4503599627366400))
 //@   loop 1 invariant forall(j, Int, j < old(ldN) ==> ldType[j] == old(ldType)[j] && ldGpa[j] == old(ldGpa)[j] && ldData[j] == old(ldData)[j])
 //@   loop 1 invariant forall(k, 0 <= k && k < len(expectedVmsas) ==> expectedVmsas[k] != nil)
+//@   ensures opts.Vcpus == old(opts.Vcpus) && opts.Product == old(opts.Product)
 
 // prepareVmsas: the boot processor's VMSA is the reset-state template; every additional vCPU gets a copy whose
 // CS base / RIP are the high / low 16 bits of the SEV-ES reset block's address.
@@ -263,14 +274,16 @@ package sev
 //@   ensures[C04] err == nil && 0 <= a && a < len(result0) ==> result0[a] != nil
 //@   ensures[C04] err == nil && 1 <= a && a < len(result0) ==> data.sevEsResetBlock != nil && result0[a].Cs != nil && result0[a].Cs.Base == data.sevEsResetBlock.Addr - data.sevEsResetBlock.Addr % 65536 && result0[a].Rip == data.sevEsResetBlock.Addr % 65536
 //@   loop 1 invariant 0 <= i && i <= options.Vcpus - 1 && len(expectedVmsas) == i + 1 && fresh(expectedVmsas) && alloc <= 32768 + 64 * (i + 1)
-//@   loop 1 invariant 0 <= a && a < len(expectedVmsas) ==> expectedVmsas[a] != nil
-//@   loop 1 invariant 1 <= a && a < len(expectedVmsas) ==> expectedVmsas[a] == next
+//@   loop 1 invariant[C04,C08,slow] 0 <= a && a < len(expectedVmsas) ==> expectedVmsas[a] != nil
+//@   loop 1 invariant[C04,slow] 1 <= a && a < len(expectedVmsas) ==> expectedVmsas[a] == next
 //@   loop 1 decreases[C08] options.Vcpus - 1 - i
 
 // LaunchDigest: the launch-update trace is: the ROM as NORMAL pages ending at 4 GiB in ascending order; then the
 // metadata sections' pages without contents; then options.Vcpus VMSA pages at the product's highest page.
 //@ func LaunchDigest
-//@   requires options != nil && len(serializedUefi) < 2147483648 && options.Vcpus < 1048576 && (options.Product == 1 || options.Product == 2)
+//@   requires options != nil
+//@   requires[C08] len(serializedUefi) < 2147483648 && options.Vcpus < 1048576 && (options.Product == 1 || options.Product == 2)
+//@   ensures options.Vcpus == old(options.Vcpus) && options.Product == old(options.Product)
 //@   modifies ldN, ldType, ldGpa, ldData, pbsrc, pbok
 //@   sweep[C08]
 //@   ghostparam a Int
@@ -280,3 +293,11 @@ package sev
 //@   ensures[C04] err == nil ==> forall(j, Int, ldN - old(options.Vcpus) <= j && j < ldN ==> ldType[j] == 2 && ldGpa[j] == ite(old(options.Product) == 1, 281474976706560, 4503599627366400))
 //@   ensures[C04] forall(j, Int, j < old(ldN) ==> ldType[j] == old(ldType)[j] && ldGpa[j] == old(ldGpa)[j] && ldData[j] == old(ldData)[j])
 //@   ensures[C04] val(serializedUefi) == old(val(serializedUefi))
+
+// C06/C04: every launch digest of the endorsement is computed from the supplied image, for the requested product
+// and for exactly the vCPU count it is listed under.
+//@ func generateAllPossibleLDs
+//@   requires snpRequest != nil
+//@   modifies ldN, ldType, ldGpa, ldData, pbsrc, pbok
+//@   atcall LaunchDigest requires[C06,C04] p0 != nil && p0.Product == snpRequest.Product && p0.Vcpus == count && same(p1, uefi)
+//@   loop 1 invariant options != nil && fresh(options) && options.Product == snpRequest.Product && result != nil && fresh(result)
